@@ -930,7 +930,7 @@ func main() {
 			var c Case
 			if err := json.Unmarshal([]byte(m["case"]), &c); err == nil && len(c.Nodes) > 0 {
 				// repeat: schedules differ from run to run
-				for i := 0; i < 20; i++ {
+				for i := 0; i < 8; i++ {
 					cc := c
 					cc.Seed = c.Seed + uint64(i)
 					cc.Lat = (c.Lat + i) % 4
@@ -945,9 +945,9 @@ func main() {
 		}
 	}
 	var w *workerProc
-	failedCases := 0
+	failedCases, hangs := 0, 0
 	for _, c := range cases {
-		if failedCases >= 6 {
+		if failedCases >= 6 || hangs >= 2 {
 			run.Count("stopped-early-after-6-failing-cases")
 			break
 		}
@@ -981,6 +981,9 @@ func main() {
 		run.TracesAgainstImpl++
 		for _, f := range res.Fails {
 			run.OracleFail(id, f[0], f[1], replay)
+			if strings.HasPrefix(f[0], "hang") {
+				hangs++
+			}
 		}
 		if len(res.Fails) > 0 {
 			failedCases++
